@@ -10,7 +10,8 @@ RULE = ("server without RENAMESCRIPT (no VERSION capability): every initial stat
 
 BODIES = [b"keep;\r\n", b"line1\nline2\n", b"a\r\nb", b"OK\r\nNO\r\n{3}\r\n", b"", b"x\ry\r\n", b"\xc3\xa9\r\n",
           # characters that are line breaks for str.splitlines but not for the protocol (VT, FF, FS, NEL, LS, PS): content, not line ends
-          b'vacation "a\x0bb\x0cc";\r\n', "# d\u2028e\u2029f\u0085g\r\nkeep;\r\n".encode("utf-8"), b"x\x1cy\x1dz\x1e\r\n"]
+          b'vacation "a\x0bb\x0cc";\r\n', "# d\u2028e\u2029f\u0085g\r\nkeep;\r\n".encode("utf-8"), b"x\x1cy\x1dz\x1e\r\n",
+          b"\xef\xbb\xbfkeep;\r\n\xef\xbb\xbfstop;\r\n"]
 STEPS = ["LISTSCRIPTS", "GETSCRIPT", "PUTSCRIPT", "SETACTIVE", "DELETESCRIPT"]
 
 
